@@ -4,7 +4,7 @@ from __future__ import annotations
 from typing import Any, Dict, List
 
 from sim.gen_worker import gen_worker_script, tier_knobs
-from sim.worker_world import enc_labels
+from sim.worker_world import FRAMEWORK_LABELS, enc_labels
 from ._wcommon import (ASSUMPTIONS, COMPONENTS_REAL, COMPONENTS_STUB, Hist, Violation, default_nontrivial,  # noqa: F401
                        simplifications, simulate)
 
@@ -44,7 +44,12 @@ KNOBS = {
 
 
 def gen(rs: int, tier: str, index: int) -> dict:
-    s = gen_worker_script(rs, tier_knobs(KNOBS, tier, index))
+    kn = KNOBS
+    if index % 5 == 1:
+        # the retry middleware re-sends failing messages: a re-sent message is still "its own message" (same id, same user labels)
+        kn = dict(KNOBS, retry={"count": 3, "label": True, "no_result_on_retry": True},
+                  outcomes={"ret": 5, "exc": 5, "baseexc": 0, "nores": 1, "requeue": 1})
+    s = gen_worker_script(rs, tier_knobs(kn, tier, index))
     from sim.rng import stream
     r = stream(rs, "c06")
     # broker.dependency_overrides: replace a dependency by one that brings its own (possibly un-cached, Context-using) sub-dependencies
@@ -76,6 +81,8 @@ def gen(rs: int, tier: str, index: int) -> dict:
             m["labels"] = {"own": ["str", f"L{m['k']}"], "n": ["int", str(m["k"] * 7)]}
             if r.random() < 0.35:
                 m["labels"] = {}          # a message that carries no labels at all
+            elif r.random() < 0.4:
+                m["labels"][f"only{m['k']}"] = ["str", f"x{m['k']}"]     # a label key no other message has
             m["args"] = [f"a{m['k']}"]
             # prefer tasks with dependencies
             cands = [i for i, t in enumerate(s["tasks"]) if t.get("deps")]
@@ -124,8 +131,18 @@ def oracle(script: dict, run: Any) -> List[Violation]:
         except Exception:  # noqa: BLE001
             want_labels = None
 
+        ts0 = script["tasks"][m.get("task", 0)] if isinstance(m.get("task", 0), int) else {}
+        own_user = dict(ts0.get("labels") or {})
+        own_user.update(m.get("labels") or {})
+        if m.get("timeout") is not None:
+            own_user["timeout"] = ["float", repr(float(m["timeout"]))]
+
         def check(where: str, seen: Any) -> None:
             if seen is None:
+                return
+            if seen["tid"] == tid and {n: v for n, v in seen["labels"].items() if n not in FRAMEWORK_LABELS} != own_user:
+                out.append(Violation("C06/foreign-labels", f"delivery {d} (task id {tid}): {where} observed user labels "
+                                     f"{ {n: v for n, v in seen['labels'].items() if n not in FRAMEWORK_LABELS} }, the message with this id was sent with {own_user}", d=d))
                 return
             if seen["tid"] != tid:
                 uncached = "@uncached" if "uncached" in where else ""
